@@ -375,6 +375,8 @@ func (c *Ctx) convert(fr *Frame, st *State, v *Val, to types.Type, site ssa.Inst
 		c.assumeAlways(fmt.Sprintf("(forall ((i Int)) (! (and (<= 0 (select %s i)) (<= (select %s i) 255)) :pattern ((select %s i))))", arr, arr, arr))
 		p := &Ptr{Comp: "E:" + typeName(et), Dim: 2, Ref: ref, T0: et, Elem: et}
 		c.storeLeaf(st, p, nil, arr)
+		c.declareFun("bytesid", []string{"(Array Int Int)", "Int", "Int"}, "Int")
+		c.assumeAlways(eq(app("bytesid", arr, "0", ln), app("strid", v.Term)))
 		return &Val{T: to, Term: c.define("sl", "Slice", app("mkSlice", ref, "0", ln, ln))}
 	case fs == "Slice" && ts == "Str": // string(b)
 		et := from.Underlying().(*types.Slice).Elem()
@@ -389,7 +391,10 @@ func (c *Ctx) convert(fr *Frame, st *State, v *Val, to types.Type, site ssa.Inst
 		cur, _ := c.loadLeaf(st, p, nil)
 		curN := c.define("cur", "(Array Int Int)", cur)
 		c.assumeAlways(fmt.Sprintf("(forall ((i Int)) (! (=> (and (<= 0 i) (< i %s)) (= (strbyte %s i) (select %s (+ (loff %s) i)))) :pattern ((strbyte %s i))))", ln, ref, curN, v.Term, ref))
-		return &Val{T: to, Term: c.define("s", "Str", app("mkStr", ref, "0", ln))}
+		c.declareFun("bytesid", []string{"(Array Int Int)", "Int", "Int"}, "Int")
+		res := c.define("s", "Str", app("mkStr", ref, "0", ln))
+		c.assumeAlways(eq(app("strid", res), app("bytesid", curN, app("loff", v.Term), ln)))
+		return &Val{T: to, Term: res}
 	case fs == "Int" && ts == "Str": // string(rune)
 		return c.uninterp("runeToString", to, v)
 	case (fs == "Int" || fs == "F64") && (ts == "F64" || ts == "Int"):
